@@ -48,10 +48,16 @@ class VLoop(asyncio.BaseEventLoop):
         events._set_running_loop(self)
         self._thread_id = threading.get_ident()
         self._entered = True
+        from mc import vclock
+
+        vclock.set_clock(self)
         return self
 
     def leave(self) -> None:
         if self._entered:
+            from mc import vclock
+
+            vclock.clear_clock(self)
             events._set_running_loop(None)
             self._thread_id = None
             self._entered = False
